@@ -329,7 +329,7 @@ func genCSR(r *wire.Rng) csrSpec {
 		c.form = wire.Pick(r, []string{"oktype", "oktrail", "oklead", "oktype", "oktrail", "oklead", "nopem", "empty", "badder", "trunc", "badsig", "emptyblock"})
 	}
 	if r.Chance(2, 3) {
-		c.key = wire.Pick(r, []string{"ec256-a", "ec256-b", "ec384", "ed25519"}) // keep RSA signing rare (speed)
+		c.key = wire.Pick(r, []string{"ec256-a", "ec256-b", "ec384", "ec521", "ed25519"}) // keep RSA signing rare (speed)
 	}
 	c.cn = wire.Pick(r, []string{"", "", "x", "evil.example.com", "spiffe://cluster.local/ns/kube-system/sa/admin", strings.Repeat("c", 64)})
 	c.org = wire.Pick(r, []string{"", "Evil Corp"})
@@ -524,9 +524,10 @@ func kubeSpecTokens(td, primary string, aliases []string, remotes, cluster, form
 	return []string{"kube", "grpc", wire.Enc(td), wire.Enc(primary), wire.EncList(aliases), remotes, cluster, form, wire.Enc(token), wire.EncList(tokenAud), rev.tok()}
 }
 
-// genReqA: a request authenticated by one REAL authenticator (kind 0 oidc, 1 kube, 2 xfcc, 3 cert).
+// genReqA: a request authenticated by one REAL authenticator (kind 0 oidc, 1 kube, 2 xfcc, 3 cert over a
+// hand-built chain, 4 client certificate over a real TLS handshake with the real PeerCertVerifier).
 func genReqA(r *wire.Rng, w genWorld, cfg genCA) reqaSpec {
-	kind := r.Intn(4)
+	kind := r.Intn(5)
 	if r.Chance(1, 3) {
 		kind = 1
 	}
